@@ -56,7 +56,10 @@ def _valid(draw):
             # history between construction and query: re-display the caller's quantities / switch the preferred distance unit
             "redisplay": draw(st.one_of(st.none(), st.sampled_from(DIST))),
             "pref_distance_after": draw(st.one_of(st.none(), st.none(), st.sampled_from(DIST))),
-            "row_look_deg": draw(st.one_of(st.just(0.0), st.floats(-45.0, 45.0)))}
+            "row_look_deg": draw(st.one_of(st.just(0.0), st.floats(-45.0, 45.0))),
+            # history: a public field of the sight is reassigned between two queries with the same distance and magnification
+            "reassign": draw(st.one_of(st.none(), st.none(), st.sampled_from(["v", "h", "scale"]))),
+            "reassign_factor": draw(st.sampled_from([0.5, 2.0, 0.4, 1.25]))}
 
 
 def _q(pair):
@@ -132,6 +135,25 @@ def check_valid(case):
             if not h_ok:
                 r.bad(f"C19:clicks:{fp}:horizontal", f"{fp}: horizontal clicks {got.horizontal!r} x effective click "
                       f"{eh[0]!r} rad != correction {w_rad!r} rad", got=list(got))
+    # history on the same sight object: after a public field has been reassigned the law follows the current fields
+    if case.get("reassign") and not r.violations and (case["calib"] or case["reassign"] != "scale"):
+        f = case["reassign_factor"]
+        case2 = dict(case)
+        if case["reassign"] == "v":
+            case2["v"] = [case["v"][0] * f, case["v"][1]]
+            sight.v_click_size = _q(case2["v"])
+        elif case["reassign"] == "h":
+            case2["h"] = [case["h"][0] * f, case["h"][1]]
+            sight.h_click_size = _q(case2["h"])
+        else:
+            case2["calib"] = [case["calib"][0] * f, case["calib"][1]]
+            sight.scale_factor = _q(case2["calib"])
+        got_b = sight.get_adjustment(_q(case["target"]), _q(case["drop"]), _q(case["wind"]), case["mag"])
+        ev2, eh2 = _effective(case2, "v"), _effective(case2, "h")
+        if not (ok(got_b.vertical, d_rad, ev2) and ok(got_b.horizontal, w_rad, eh2)):
+            r.bad(f"C19:history:stale-after-field-reassignment:{fp}", f"{fp}: after reassigning {case['reassign']} (x{f}) the same query gives "
+                  f"({got_b.vertical!r}, {got_b.horizontal!r}); the current fields give effective clicks {ev2[0]!r} / {eh2[0]!r} rad for corrections {d_rad!r} / {w_rad!r}")
+        r.label("field-reassigned")
     # sign and linearity: doubling the correction doubles the clicks (kept inside one turn: <= 0.6 rad)
     drop2 = pb.Angular.Radian(2 * d_rad)
     wind2 = pb.Angular.Radian(2 * w_rad)
